@@ -456,10 +456,24 @@ func runC06(r *vk.Run) {
 		variant := rng.Intn(3)
 		stage := "| logfmt"
 		expect := map[string]string{}
+		// sometimes one key occurs twice in the line: which occurrence wins is not stated, but every
+		// OTHER field must still be exposed
+		dupKey := ""
+		if len(pairs) >= 2 && rng.Chance(1, 4) {
+			d := rng.Intn(len(pairs))
+			dupKey = pairs[d][0]
+			extra := [2]string{dupKey, "second-" + pairs[d][1]}
+			pos := rng.Intn(len(pairs) + 1)
+			withDup := append(append(append([][2]string{}, pairs[:pos]...), extra), pairs[pos:]...)
+			line = writeLogfmt(withDup)
+			c.Count("logfmt_lines_with_duplicate_key", 1)
+		}
+		dupLabel := map[string]bool{}
 		switch variant {
 		case 0:
 			for _, kv := range pairs {
 				expect[kv[0]] = kv[1]
+				dupLabel[kv[0]] = kv[0] == dupKey
 			}
 		case 1:
 			var want []string
@@ -467,6 +481,7 @@ func runC06(r *vk.Run) {
 				if rng.Bool() {
 					want = append(want, kv[0])
 					expect[kv[0]] = kv[1]
+					dupLabel[kv[0]] = kv[0] == dupKey
 				}
 			}
 			if len(want) == 0 {
@@ -480,6 +495,7 @@ func runC06(r *vk.Run) {
 					dst := fmt.Sprintf("r%d", i)
 					parts = append(parts, dst+"="+quoteLogQL(kv[0]))
 					expect[dst] = kv[1]
+					dupLabel[dst] = kv[0] == dupKey
 				}
 			}
 			if len(parts) == 0 {
@@ -498,7 +514,11 @@ func runC06(r *vk.Run) {
 		}
 		if msg == "" {
 			for k, v := range expect {
-				if gv, ok := got[k]; !ok || gv != v {
+				gv, ok := got[k]
+				if dupLabel[k] && ok && (gv == v || gv == "second-"+v) {
+					continue // duplicated key: either occurrence
+				}
+				if !ok || gv != v {
 					msg = fmt.Sprintf("field %s=%q (present=%v), expected %q", k, gv, ok, v)
 				}
 				c.Count("fields_asserted", 1)
@@ -510,7 +530,7 @@ func runC06(r *vk.Run) {
 			}
 		}
 		if msg != "" {
-			c.Fail("", stage+": "+msg, map[string]any{"line": line, "pairs": pairs, "stage": stage, "labels": got})
+			c.Fail("", stage+": "+msg, map[string]any{"line": line, "pairs": pairs, "stage": stage, "labels": got, "duplicated_key": dupKey})
 			return
 		}
 		c.Count("documents:logfmt", 1)
@@ -805,6 +825,15 @@ func runC06(r *vk.Run) {
 		}
 		for _, l := range []string{`a="unterminated`, `a=1 b="x`, `"k"=v`, `a=1 =v`} {
 			if !check(l, "| logfmt", true) {
+				return
+			}
+		}
+		// the field-list forms must notice a malformed tail as well
+		for _, l := range []string{`a=1 b=2 c="unterminated`, `a=1 b=2 "k"=v`, `b=2 a=1 zz="x`} {
+			if !check(l, "| logfmt a, b", true) {
+				return
+			}
+			if !check(l, `| logfmt x="a", y="b"`, true) {
 				return
 			}
 		}
